@@ -89,6 +89,10 @@ def c13(out, tier):
 
 
 # ---------------------------------------------------------------- engine M properties (HTML tokenizer)
+# concrete probe appended after the symbolic part: it drives the tokenizer through look-ahead (eat), comment, DOCTYPE, tag,
+# attribute and character-reference machinery, so that any stale internal state left behind by the symbolic part becomes observable
+PROBE = "\n<!--x--><!DOCTYPE y><z w=v>&amp;</z>"
+
 TOK_SRC = ["html5ever/src/tokenizer/mod.rs", "html5ever/src/tokenizer/char_ref/mod.rs", "html5ever/src/tokenizer/states.rs",
            "html5ever/src/tokenizer/interface.rs", "html5ever/src/util/str.rs", "html5ever/src/macros.rs", "web_atoms/build.rs",
            "web_atoms/entities.rs"]
@@ -102,6 +106,10 @@ M_ASSUME = [
     "every symbolic character has a fixed UTF-8 length class per run (class vectors listed in bounds); within its class it is an arbitrary Unicode scalar value",
     "the interpreter is validated on every run: concrete executions of it are compared token-for-token with the natively built tokenizer (coverage.traces_validated_against_impl)",
 ]
+
+
+DEEP_STATES = ("Data", "RawData:Rcdata", "RawData:ScriptData", "TagName", "AttributeValue:DoubleQuoted", "AttributeValue:Unquoted", "Comment",
+               "DoctypeName", "AfterDoctypeName", "BogusComment", "CdataSection", "MarkupDeclarationOpen", "BeforeAttributeValue", "Plaintext")
 
 
 def tok_setup(out):
@@ -212,6 +220,7 @@ def tok_finish(out, TC, tok, results, exe, exe_rel, prop, keep_err, what, bounds
                               {"engine": "mirsym", "kind": "panic", "case": tok.case_text(cfg, chunks), "native": nat}, key)
             else:
                 out.inconclusive.append("panic/totality path does not reproduce natively: %s %s %r" % (pn["what"], pn["state"], pn["chars"]))
+    out.extra["slowest_units"] = [(r["unit"], round(r["wall"], 1)) for r in sorted(results, key=lambda r: -r["wall"])[:8]]
     out.units.append({"engine": "mirsym (MIR symbolic executor) + z3 " + __import__("z3").get_version_string(), "what": what, "bounds": bounds,
                       "work_units": len(results), "paths_explored": npaths, "obligations": obl,
                       "unit_wall_s_total": round(sum(r["wall"] for r in results), 1)})
@@ -276,6 +285,24 @@ def c03(out, tier):
     classes = [[1] * k, [1, 3] + [1] * (k - 2)] + ([[3] + [1] * (k - 1), [1, 2, 4][:k]] if tier == "thorough" else [])
     bases = [BASE, dict(BASE, exact_errors=True), dict(BASE, on_start="Script"), dict(BASE, on_start=("RawData", "Rcdata"))]
     units = tok_units(TC, tok, prog, k, classes, chunk_variants(TC), bases, kind="C03", keep_errors=True, line_oracle=False)
+    # one more symbolic character from representative states (the pending-CR / look-ahead / char-ref machinery needs 3)
+    deep = [u for u in tok_units(TC, tok, prog, k + 1, [[1] * (k + 1)], chunk_variants(TC), [BASE], kind="C03", keep_errors=True, line_oracle=False)
+            if tok.state_spec(TC._tup(u["state"])) in DEEP_STATES]
+    # and every state again with the concrete probe suffix (fed as a separate last chunk in the chunked runs)
+    probe = tok_units(TC, tok, prog, k, [[1] * k], chunk_variants(TC), [BASE], kind="C03", keep_errors=True, line_oracle=False, suffix=[ord(c) for c in PROBE])
+    # concrete prefixes that park the tokenizer inside a look-ahead / character reference / pending CR, then symbolic characters,
+    # cut at every position (also inside the prefix)
+    scen = []
+    for (st, pre) in (("Data", "&#"), ("Data", "&#x"), ("Data", "&am"), ("Data", "&no"), ("Data", "<!-"), ("Data", "<!DOCTYP"), ("Data", "<![CDAT"),
+                      ("Data", "</"), ("Data", "<a b="), ("Data", "\r"), ("Data", "x\r"), (("RawData", "Rcdata"), "</a"), (("RawData", "ScriptData"), "<!-"),
+                      (("AttributeValue", "DoubleQuoted"), "&#x"), (("AttributeValue", "Unquoted"), "&am"), ("AfterDoctypeName", "PUBLI"),
+                      ("Data", "<!doctype a publi")):
+        n = len(pre) + 2
+        pv = [("chunks%s" % c, {}, c) for c in TC.splits(n)]
+        for b in (BASE, dict(BASE, exact_errors=True)):
+            scen.append({"kind": "C03", "state": st, "k": 2, "classes": [1, 1], "base": b, "variants": pv, "keep_errors": True, "line_oracle": False,
+                         "prefix": [ord(c) for c in pre]})
+    units = units + deep + probe + scen
     res = TC.run_units(units, mir, ent)
     bounds = "all %d start states x %d symbolic characters (UTF-8 class vectors %s) x every split into non-empty chunks plus empty chunks at the front and in the middle x {default, exact_errors, sink answers Script, sink answers RawData(Rcdata)}; then EOF" % (
         len(tok.all_states(prog)), k, classes)
@@ -342,6 +369,10 @@ def c09(out, tier):
         return [("chunks%s" % ([1] * k_), {}, [1] * k_), ("exact_errors", {"exact_errors": True}, None)]
     bases = [BASE, dict(BASE, on_start=("RawData", "Rawtext"))]
     units = tok_units(TC, tok, prog, k, classes, vs, bases, kind="C09", keep_errors=False, line_oracle=True)
+    def vs3(k_, cls):
+        return [("chunks%s" % c, {}, c) for c in TC.compositions(k_) if len(c) > 1]
+    units += [u for u in tok_units(TC, tok, prog, k + 1, [[1] * (k + 1)], vs3, [BASE], kind="C09", keep_errors=False, line_oracle=True)
+              if tok.state_spec(TC._tup(u["state"])) in DEEP_STATES]
     res = TC.run_units(units, mir, ent)
     bounds = "all %d start states x %d symbolic ASCII characters (CR, LF and CRLF arise as values of the symbolic characters) x {whole, one character per feed, exact_errors}: for every emitted token, line == 1 + #line breaks in the characters the input queue had handed out at emission" % (len(tok.all_states(prog)), k)
     npaths, obl = tok_finish(out, TC, tok, res, exe, exe_rel, "C09", False, "per-token line-number oracle", bounds)
@@ -369,6 +400,8 @@ def c01(out, tier):
                 if base["foreign"] and tok.state_spec(st) not in ("MarkupDeclarationOpen", "TagOpen", "Data"):
                     continue
                 units.append({"state": st, "k": k, "classes": cls, "base": base})
+                if base["on_start"] in ("Continue", ("RawData", "Rcdata")) and cls == classes[0]:
+                    units.append({"state": st, "k": k, "classes": cls, "base": base, "suffix": [ord(c) for c in PROBE]})
     # look-ahead keywords need longer inputs: concrete keyword prefix + symbolic tail
     for (st, pre) in (("MarkupDeclarationOpen", "DOCTYP"), ("MarkupDeclarationOpen", "[CDATA"), ("MarkupDeclarationOpen", "-"),
                       ("AfterDoctypeName", "PUBLI"), ("AfterDoctypeName", "SYSTE"), ("AfterDoctypeName", "pUbLiC"),
@@ -380,12 +413,22 @@ def c01(out, tier):
             if fg and pre != "[CDATA":
                 continue
             units.append({"state": st, "k": k, "classes": [1] * k, "base": dict(BASE, discard_bom=False, foreign=fg), "prefix": [ord(c) for c in pre]})
+    # tags are dropped at EOF, so attribute/tag machinery is also exercised with a concrete suffix that completes the tag
+    for (st, pre, suf) in (("BeforeAttributeName", 'n="', '">'), ("BeforeAttributeName", "n='", "'>"), ("BeforeAttributeName", "n=", " >"),
+                           ("AttributeName", "n", '="v">'), ("AfterAttributeName", "", '="v" x>'), ("TagName", "b", " c=d>"),
+                           ("BeforeAttributeName", 'n="&amp', '">'), ("BeforeAttributeName", "n=&not", " >"), ("BeforeAttributeName", "n='&#x4", "'>"),
+                           ("BeforeAttributeName", 'a=1 ', '=2 a=3>'), ("Data", "<", " x=y>z"), ("Data", "</", " x=y>z"),
+                           (("RawData", "Rcdata"), "</", ">z"), (("RawData", "ScriptData"), "<!--<", ">-->"), ("SelfClosingStartTag", "", ">x"),
+                           (("RawData", "Rcdata"), "</a", PROBE), (("RawData", "Rawtext"), "x</a", ">" + PROBE), (("RawData", "ScriptData"), "</a", PROBE),
+                           ("AfterAttributeValueQuoted", "", "n=v>")):
+        for cls in classes:
+            units.append({"state": st, "k": k, "classes": cls, "base": dict(BASE, discard_bom=False), "prefix": [ord(c) for c in pre], "suffix": [ord(c) for c in suf]})
     rnd = __import__("random").Random(C.seed())
     rnd.shuffle(units)
     res = TC.run_units_fn(TC.unit_c01, units, mir, ent)
     bounds = ("all %d start states x %d symbolic characters (UTF-8 class vectors %s), last start tag 'a' (a symbolic end-tag name may or may not equal it) and none, "
-              "sink answers {Continue, Plaintext, Script, RawData(Rcdata|Rawtext|ScriptData)}, CDATA allowed or not, plus %d keyword-prefix scenarios (concrete prefix + %d symbolic characters); then EOF") % (
-        len(states), k, classes, 19, k)
+              "sink answers {Continue, Plaintext, Script, RawData(Rcdata|Rawtext|ScriptData)}, CDATA allowed or not, plus %d scenarios (concrete prefix + %d symbolic characters + concrete suffix that completes the pending tag); then EOF") % (
+        len(states), k, classes, 35, k)
     out.extra["ref_paths"] = sum(r.get("ref_paths", 0) for r in res)
     npaths, obl = tok_finish_c01(out, TC, tok, prog, res, exe, exe_rel, bounds)
     out.assumptions += ["oracle: /verif/spec/html_tokenizer_ref.py, a transcription of WHATWG HTML 13.2.5 with the start-state conventions stated in its header; run over the same symbolic characters after CR/CRLF normalisation",
@@ -413,29 +456,32 @@ def c14(out, tier):
             len(diff), ex, gen.get(ex), want.get(ex)), {"engine": "table", "key": ex, "generated": gen.get(ex), "expected": want.get(ex)},
             "C14|table|%s" % ex)
     out.extra["table_keys_compared"] = len(want)
-    ctxs = ["Data", ("RawData", "Rcdata"), ("AttributeValue", "DoubleQuoted"), ("AttributeValue", "SingleQuoted"), ("AttributeValue", "Unquoted")]
+    # contexts: (start state, text before the reference, text after the symbolic part).  Attribute contexts start before an
+    # attribute name and end with the closing quote and '>' so that the value is observable in the emitted tag.
+    ctxs = [("Data", "", ""), (("RawData", "Rcdata"), "", ""), ("BeforeAttributeName", 'n="', '">'), ("BeforeAttributeName", "n='", "'>"),
+            ("BeforeAttributeName", "n=", " >")]
     base = dict(BASE, discard_bom=False)
     units = []
     # numeric references
     kq = 3 if tier == "quick" else 4
-    for st in ctxs:
+    for (st, cpre, csuf) in ctxs:
         for pre in ("&#", "&#x", "&#X"):
-            units.append({"state": st, "k": kq, "classes": [1] * kq, "base": base, "prefix": [ord(c) for c in pre], "entities": snap_ents(snap)})
+            units.append({"state": st, "k": kq, "classes": [1] * kq, "base": base, "prefix": [ord(c) for c in cpre + pre], "suffix": [ord(c) for c in csuf], "entities": snap_ents(snap)})
         # longer digit strings: fully symbolic hex digits (shifts are cheap for the solver) ...
         hexfam = [("&#x", (48, 57), 5), ("&#x", (97, 102), 9), ("&#X", (65, 70), 9)] + ([("&#x", (48, 57), 6), ("&#x", (48, 57), 9)] if tier == "thorough" else [])
         for pre, rng, d in hexfam:
-            if tier == "quick" and st not in ("Data", ("AttributeValue", "DoubleQuoted")):
+            if tier == "quick" and cpre not in ("", 'n="'):
                 continue
-            units.append({"state": st, "k": d + 1, "classes": [1] * (d + 1), "base": base, "prefix": [ord(c) for c in pre],
+            units.append({"state": st, "k": d + 1, "classes": [1] * (d + 1), "base": base, "prefix": [ord(c) for c in cpre + pre], "suffix": [ord(c) for c in csuf],
                           "char_ranges": [rng] * d + [(None, None)], "entities": snap_ents(snap)})
         # ... and decimal strings as concrete leading digits + symbolic trailing digits around every boundary the
         # algorithm distinguishes (multiplying a fully symbolic 32-bit value by 10 eleven times is out of z3's reach)
         decfam = [("&#", 3), ("&#1114", 3), ("&#55", 3), ("&#57", 3), ("&#6553", 1), ("&#42949672", 2), ("&#42949673", 2), ("&#429496", 4),
                   ("&#99999999", 2)] + ([("&#", 4), ("&#1", 4), ("&#11141", 3), ("&#4294967", 3)] if tier == "thorough" else [])
         for pre, d in decfam:
-            if tier == "quick" and st not in ("Data", ("AttributeValue", "DoubleQuoted")):
+            if tier == "quick" and cpre not in ("", 'n="'):
                 continue
-            units.append({"state": st, "k": d + 1, "classes": [1] * (d + 1), "base": base, "prefix": [ord(c) for c in pre],
+            units.append({"state": st, "k": d + 1, "classes": [1] * (d + 1), "base": base, "prefix": [ord(c) for c in cpre + pre], "suffix": [ord(c) for c in csuf],
                           "char_ranges": [(48, 57)] * d + [(None, None)], "entities": snap_ents(snap)})
     # named references
     names = sorted(snap)
@@ -453,8 +499,9 @@ def c14(out, tier):
     for n in sel:
         forms = {n, n[:-1]}
         for f in sorted(forms):
-            for st in ctxs:
-                units.append({"state": st, "k": kf, "classes": [1] * kf, "base": base, "prefix": [38] + [ord(c) for c in f], "entities": snap_ents(snap)})
+            for (st, cpre, csuf) in ctxs:
+                units.append({"state": st, "k": kf, "classes": [1] * kf, "base": base, "prefix": [ord(c) for c in cpre] + [38] + [ord(c) for c in f],
+                              "suffix": [ord(c) for c in csuf], "entities": snap_ents(snap)})
     out.extra["names_checked"] = len(sel)
     rnd.shuffle(units)
     res = TC.run_units_fn(TC.unit_c01, units, mir, ent)
@@ -466,6 +513,103 @@ def c14(out, tier):
     out.assumptions += ["trusted base: /verif/spec/entities_snapshot.json (the table of the pinned commit; no network copy of entities.json is available in the sandbox)",
                         "the reference uses the snapshot, not the generated table", "xml5ever's character references are checked by C15 (differentially), not against this oracle"]
     return finish_mc(out, npaths, obl, len(ctxs), [{"bounds": bounds}])
+
+
+XML_SRC = ["xml5ever/src/tokenizer/mod.rs", "xml5ever/src/tokenizer/char_ref/mod.rs", "xml5ever/src/tokenizer/states.rs",
+           "xml5ever/src/tokenizer/interface.rs", "xml5ever/src/tokenizer/qname.rs"]
+XBASE = {"exact_errors": False, "discard_bom": True, "profile": False, "last_start_tag": None, "on_start": "Continue",
+         "foreign": False, "simd": True, "dialect": "xml"}
+
+
+def xml_setup(out):
+    from lib import tokchecks as TC
+    from mirsym import build, tok, models as MD
+    from mirsym.program import Program
+    mir, ent, dt = build.dump_mir("xml5ever")
+    prog = Program(mir, C.REPO, "xml5ever", MD.M)
+    tok.load_entities(prog, ent)
+    exe = build.replay_binary("dev")
+    exe_rel = build.replay_binary("release")
+    out.extra["mir_dump_s"] = round(dt, 1)
+    out.extra["source_hash"] = C.src_hash(XML_SRC)
+    out.extra["source_files"] = XML_SRC
+    return TC, tok, prog, mir, ent, exe, exe_rel
+
+
+def xml_self_validate(out, tok, prog, exe, n, seed):
+    import random
+    rnd = random.Random(2000 + seed)
+    states = tok.all_xml_states(prog)
+    alpha = "<>/!-=&#;\"' \t\n\r\0aAzZxX09?]:\u00e9\ufeff\ufffd"
+    words = ["DOCTYPE", "PUBLIC", "SYSTEM", "[CDATA[", "--", "amp;", "lt;", "#x41;", "#65;", "a:b", "xmlns:p", "<?", "?>", "</", "<!", "]]>",
+             "<a b='c'>", "<!--", "-->", "/>"]
+    bad = []
+    for it in range(n):
+        st = rnd.choice(states) if rnd.random() < 0.7 else "Data"
+        s = ""
+        for _ in range(rnd.randint(0, 6)):
+            s += rnd.choice(words) if rnd.random() < 0.35 else rnd.choice(alpha)
+        chs_ = [ord(c) for c in s]
+        cuts = sorted(rnd.sample(range(len(chs_) + 1), min(len(chs_) + 1, rnd.randint(0, 3))))
+        chunks, prev = [], 0
+        for c in cuts + [len(chs_)]:
+            chunks.append(chs_[prev:c])
+            prev = c
+        cfg = tok.Cfg(state=st, exact_errors=rnd.random() < 0.3, discard_bom=rnd.random() < 0.7, chunks=chunks, dialect="xml")
+        try:
+            r, _, _ = tok.run_one(prog, cfg, [], chs_)
+            mine = tok.raw_text(r.tokens) + ["feeds " + ",".join(r.feed_results)] if r.outcome == "ok" else ["OUTCOME " + r.outcome]
+        except Exception as e:
+            mine = ["EXC " + str(e)[:200]]
+        nat = tok.native_run(exe, tok.case_text(cfg, chunks))
+        if mine != nat:
+            bad.append({"state": tok.state_spec(st), "input": s, "chunks": [len(c) for c in chunks], "mine": mine[:6], "native": nat[:6]})
+    out.extra["traces_validated_against_impl"] = n
+    if bad:
+        out.inconclusive.append("encoder self-validation (xml): %d of %d concrete runs differ from the native tokenizer, e.g. %r" % (len(bad), n, bad[0]))
+    return not bad
+
+
+def c15(out, tier):
+    TC, tok, prog, mir, ent, exe, exe_rel = xml_setup(out)
+    if not xml_self_validate(out, tok, prog, exe, 300 if tier == "quick" else 1500, C.seed()):
+        return finish_mc(out, 0, 0, 0, ["self-validation failed"])
+    k = 2 if tier == "quick" else 3
+    states = tok.all_xml_states(prog)
+    classes = [[1] * k, [1, 3, 1, 1][:k]] + ([[3] + [1] * (k - 1), [2, 1, 4, 1][:k]] if tier == "thorough" else [])
+    XDEEP = ("Data", "TagName", "TagAttrValue:DoubleQuoted", "TagAttrValue:Unquoted", "Comment", "Cdata", "PiData", "DoctypeName", "EndTagName")
+    def vs(k_, cls):
+        v = [("chunks%s" % c, {}, c) for c in TC.compositions(k_) if len(c) > 1]
+        v += [("chunks[0,%d]" % k_, {}, [0, k_]), ("exact_errors", {"exact_errors": True}, None), ("exact_errors+chunks", {"exact_errors": True}, [1] * k_)]
+        return v
+    units = []
+    for st in states:
+        for cls in classes:
+            units.append({"kind": "C15", "state": st, "k": k, "classes": cls, "base": XBASE, "variants": vs(k, cls), "keep_errors": False, "line_oracle": False})
+        if tok.state_spec(st) in XDEEP:
+            units.append({"kind": "C15", "state": st, "k": k + 1, "classes": [1] * (k + 1), "base": XBASE, "variants": vs(k + 1, None), "keep_errors": False, "line_oracle": False})
+    # character references next to line breaks / NUL: concrete reference + symbolic neighbours
+    for (st, pre) in (("Data", "&#x41;"), ("Data", "&amp"), ("Data", "&#"), (("TagAttrValue", "DoubleQuoted"), "&lt;"), (("TagAttrValue", "Unquoted"), "&#65"), ("Data", "&x")):
+        n = len(pre) + 2
+        pv = [("chunks%s" % c, {}, c) for c in TC.splits(n)] + [("exact_errors", {"exact_errors": True}, None)]
+        units.append({"kind": "C15", "state": st, "k": 2, "classes": [1, 1], "base": XBASE, "variants": pv, "keep_errors": False,
+                      "line_oracle": False, "prefix": [ord(c) for c in pre]})
+    # discard_bom: only the first character of the stream
+    cls3 = [[3] + [1] * (k - 1)]
+    for st in states:
+        units.append({"kind": "C15bom", "state": st, "k": k, "classes": cls3[0], "base": XBASE, "variants": [("discard_bom-off", {"discard_bom": False}, None)],
+                      "keep_errors": False, "forbid_first": 0xFEFF})
+        units.append({"kind": "C15bom1", "state": st, "k": k, "classes": cls3[0], "base": XBASE,
+                      "variants": [("discard_bom-drops-only-first", {"discard_bom": False}, None, {"skip": 1})], "keep_errors": False, "force": [(0, 0xFEFF)]})
+    rnd = __import__("random").Random(C.seed())
+    rnd.shuffle(units)
+    res = TC.run_units(units, mir, ent, crate="xml5ever")
+    bounds = ("xml5ever tokenizer: all %d start states x %d symbolic characters (class vectors %s): every split into chunks (and an empty first chunk), exact_errors on/off (whole and one character per feed), "
+              "discard_bom on/off; plus character-reference prefixes followed by 2 symbolic characters") % (len(states), k, classes)
+    npaths, obl = tok_finish(out, TC, tok, res, exe, exe_rel, "C15", False, "XML token stream: variant vs base (tokens minus ParseError)", bounds)
+    out.assumptions += ["tree equality follows from token-stream equality: XmlTreeBuilder::process_token is a function of the token sequence",
+                        "outside the bound: longer inputs"]
+    return finish_mc(out, npaths, obl, len(states), [{"bounds": bounds}])
 
 
 def snap_ents(snap):
@@ -515,7 +659,7 @@ def tok_finish_c01(out, TC, tok, prog, results, exe, exe_rel, bounds):
     return npaths, obl
 
 
-PROPS = {"C01": c01, "C14": c14, "C07": c07, "C13": c13, "C03": c03, "C04": c04, "C08": c08, "C09": c09}
+PROPS = {"C01": c01, "C14": c14, "C15": c15, "C07": c07, "C13": c13, "C03": c03, "C04": c04, "C08": c08, "C09": c09}
 
 
 def replay(path):
